@@ -1,32 +1,438 @@
-"""pandas contracts (ASSUMED): a DataFrame is a record of equally long columns — filled in with C03."""
+"""pandas contracts (ASSUMED, trusted base).
+
+A DataFrame is a record of equally long columns: heap cell kind "df" with data
+``{"cols": {name: Arr (1-D, own heap cell)}, "order": [names], "n": length}``.  Row labels are the default
+RangeIndex (the repository never relies on another index for the functions under contract, except
+``vector_fft_corr`` which is outside the model).  Semantics assumed:
+
+* ``pd.DataFrame(2-D array, columns=names)``: column j is a copy of ``data[:, j]``;  ``pd.DataFrame(dict)``: one column per key;
+  ``pd.DataFrame(0, index=range(n), columns=names)``: n rows of integer zeros.
+* ``df[name]`` is the column (a Series); ``df[name] = v`` replaces/adds the column with the values of ``v`` (length n, or a
+  scalar broadcast); ``df[name] op= v`` equals ``df[name] = df[name] op v`` (performed in place on the column cell when the
+  dtype does not change, which has the same values);  ``df[[names]]`` is a new frame of copies.
+* ``df.join(other)``: columns of ``other`` appended, rows paired by position (both have the default index and equal length;
+  the equal-length requirement is a side obligation).
+* ``df.round(k)``: element-wise decimal rounding of float columns (uninterpreted ``round<k>`` with the axioms of axioms.py).
+* ``<df or series>.groupby(keys).mean().reset_index()``: one row per distinct key, keys ascending; each other column the mean
+  over the group.  The result has a fresh symbolic length G and key column K(g) (uninterpreted), the value at row g is
+  ``sum_j [keys_j == K(g)] v_j / sum_j [keys_j == K(g)]``; facts available to contracts through the cell's meta:
+  ("groupby", keys reader, n, K, G).
+* ``df.values`` / ``series.values``: a read-only array (pandas 3 copy-on-write: the returned array is not writeable).
+* ``df.to_csv(path, float_format=..., index=False)``: file-write event ``("to_csv", path, {name: column snapshot}, order, float_format)``
+  appended to ``cur().trace``; ``np.save``/``np.savetxt`` events are produced in lib.py.
+* ``pd.Series(a).map(dict).values``: element-wise dictionary lookup (every value must be a key: side obligation ``map-key``).
+"""
 from __future__ import annotations
 
-from .sv import EngineError
+import z3
+
+from . import arr as A
+from . import sv
+from .sigma import Sum
+from .state import Content, cur
+from .sv import SV, EngineError, is_conc, ite, norm
+
+
+def _ref(sid):
+    from .interp import Ref
+    return Ref(sid, "df")
+
+
+def new_df(cols, order, n):
+    """cols: {name: Arr 1-D}; columns are copied into fresh cells"""
+    own = {}
+    for name in order:
+        c = cols[name]
+        own[name] = A.copy(c) if isinstance(c, A.Arr) else c
+    return _ref(cur().alloc(Content("df", {"cols": own, "order": list(order), "n": n})))
+
+
+def df_content(df):
+    return cur().heap[df.sid].data
+
+
+def _series(a, name=None):
+    from .lib import SeriesVal
+    return SeriesVal(a, name)
+
+
+def _as_col(interp, v, n):
+    """value assigned to a column -> 1-D Arr of length n"""
+    from .lib import SeriesVal, _arr
+    v = norm(v)
+    if isinstance(v, SeriesVal):
+        v = v.arr
+    if isinstance(v, A.Masked):
+        raise EngineError("masked selection assigned to a DataFrame column")
+    if sv.is_scalar(v):
+        return A.new_arr((n,), lambda idx, v=v: v, A.scalar_dtype(v))
+    a = _arr(v, interp)
+    if a.ndim != 1:
+        raise EngineError("column value must be 1-D")
+    A.require_dim_eq(a.shape[0], n, "dataframe-column-length")
+    return A.copy(a)
+
+
+def dataframe_ctor(interp, data=None, index=None, columns=None, dtype=None, **kw):
+    from .interp import Ref
+    from .lib import RangeVal, SeriesVal, _arr
+    data = norm(data)
+    if isinstance(data, Ref) and data.kind == "dict":
+        d = data.content
+        order = list(d.keys())
+        cols = {}
+        n = None
+        for k in order:
+            a = d[k]
+            a = a.arr if isinstance(a, SeriesVal) else _arr(a, interp)
+            if a.ndim != 1:
+                raise EngineError("DataFrame(dict) with non 1-D value")
+            if n is None:
+                n = a.shape[0]
+            else:
+                A.require_dim_eq(a.shape[0], n, "dataframe-column-length")
+            cols[k] = a
+        return new_df(cols, order, n)
+    names = None
+    if columns is not None:
+        names = [x for x in interp.iter_concrete(columns)]
+    if sv.is_scalar(data) and data is not None:
+        if index is None or names is None:
+            raise EngineError("DataFrame(scalar) needs index and columns")
+        index = norm(index)
+        if isinstance(index, RangeVal):
+            n = index.length() if not index.concrete() else len(index.to_range())
+        else:
+            n = len(interp.iter_concrete(index))
+        if not is_conc(n):
+            cur().require(sv.cmp(">=", n, 0), "nonneg-dim")
+        dt = A.scalar_dtype(data)
+        cols = {k: A.new_arr((n,), lambda idx, v=data: v, dt) for k in names}
+        return new_df(cols, names, n)
+    a = _arr(data, interp)
+    if a.ndim == 1:
+        names = names or [0]
+        if len(names) != 1:
+            raise PyValueError("Shape of passed values")
+        return new_df({names[0]: a}, names, a.shape[0])
+    if a.ndim != 2:
+        raise EngineError("DataFrame of rank > 2")
+    k = A.conc_dim(a.shape[1], "number of DataFrame columns")
+    if names is None:
+        names = list(range(k))
+    if len(names) != k:
+        from .interp import PyRaise
+        raise PyRaise("ValueError", f"Shape of passed values is (n, {k}), indices imply (n, {len(names)})")
+    r = a.reader()
+    cols = {}
+    for j, nm in enumerate(names):
+        cols[nm] = A.new_arr((a.shape[0],), lambda idx, j=j, r=r: r((idx[0], j)), a.dtype)
+    return new_df(cols, names, a.shape[0])
+
+
+def PyValueError(msg):
+    from .interp import PyRaise
+    return PyRaise("ValueError", msg)
+
+
+def series_ctor(interp, data=None, **kw):
+    from .lib import _arr
+    return _series(_arr(data, interp))
 
 
 def df_attr(interp, df, name):
-    raise EngineError(f"DataFrame.{name}")
+    from .interp import BoundLib
+    c = df_content(df)
+    if name == "values":
+        return df_values(df)
+    if name == "columns":
+        from .interp import new_list
+        return new_list(list(c["order"]))
+    if name == "shape":
+        return (c["n"], len(c["order"]))
+    if name == "loc":
+        return BoundLib("df.loc", df)
+    if name in c["cols"] and name not in ("round", "join", "groupby", "to_csv", "mean", "copy", "astype"):
+        return _series(c["cols"][name], name)
+    return BoundLib("df." + name, df)
+
+
+def df_values(df):
+    c = df_content(df)
+    order = c["order"]
+    readers = [c["cols"][k].reader() for k in order]
+    dt = A.promote(*[c["cols"][k].dtype for k in order])
+
+    def fn(idx):
+        j = idx[1]
+        if is_conc(j):
+            return A._cast(readers[int(j)]((idx[0],)), dt)
+        return A._pick([A._cast(r((idx[0],)), dt) for r in readers], j)
+    return A.new_arr((c["n"], len(order)), fn, dt, readonly=True)
 
 
 def series_attr(interp, s, name):
-    raise EngineError(f"Series.{name}")
+    from .interp import BoundLib
+    if name == "values":
+        a = A.copy(s.arr)
+        cur().heap[a.sid].meta["readonly"] = True
+        return a
+    if name in ("shape", "dtype", "size"):
+        return interp.lib.arr_attr(interp, s.arr, name)
+    if name == "loc" or name == "iloc":
+        return BoundLib("series.loc", s)
+    return BoundLib("series." + name, s)
 
 
 def df_getitem(interp, df, key):
-    raise EngineError("DataFrame[...]")
+    from .interp import Ref
+    c = df_content(df)
+    if isinstance(key, Ref) and key.kind == "list":
+        names = list(key.content)
+        for k in names:
+            if k not in c["cols"]:
+                raise interp_keyerror(k)
+        return new_df({k: c["cols"][k] for k in names}, names, c["n"])
+    k = interp.dict_key(key)
+    if isinstance(k, (str, int)) and k in c["cols"]:
+        return _series(c["cols"][k], k)
+    raise interp_keyerror(key)
+
+
+def interp_keyerror(k):
+    from .interp import PyRaise
+    return PyRaise("KeyError", repr(k))
 
 
 def df_setitem(interp, df, key, value):
-    raise EngineError("DataFrame[...] = ")
+    c = df_content(df)
+    k = interp.dict_key(key)
+    if not isinstance(k, (str, int)):
+        raise EngineError("DataFrame item assignment with a non-scalar key")
+    col = _as_col(interp, value, c["n"])
+    cols = dict(c["cols"])
+    order = list(c["order"])
+    if k not in cols:
+        order.append(k)
+    cols[k] = col
+    cell = cur().heap[df.sid]
+    cur().heap[df.sid] = Content("df", {"cols": cols, "order": order, "n": c["n"]}, cell.meta)
+    cur().events.append(("df-setcol", df.sid, k, cur().where, list(cur().pc)))
+
+
+def df_aug_assign(interp, df, key, op, rhs):
+    """df[key] op= rhs.  Same values as df[key] = df[key] op rhs; done in place on the column's own cell when the
+    column dtype is unchanged (so that loops accumulate into an ordinary array cell)."""
+    from .lib import SeriesVal
+    c = df_content(df)
+    k = interp.dict_key(key)
+    if k not in c["cols"]:
+        raise interp_keyerror(k)
+    col = c["cols"][k]
+    r = norm(rhs)
+    if isinstance(r, SeriesVal):
+        r = r.arr
+    rdt = r.dtype if isinstance(r, A.Arr) else A.scalar_dtype(r)
+    res_dt = "float" if op == "/" else A.promote(col.dtype, rdt)
+    if res_dt == col.dtype and op != "/" or (op == "/" and col.dtype in ("float", "complex")):
+        A.inplace(col, op, r)
+        return
+    df_setitem(interp, df, k, interp.binop(op, col, r))
 
 
 def pandas_method(interp, kind, recv, meth, args, kwargs):
+    if kind == "df":
+        return df_method(interp, recv, meth, args, kwargs)
+    if kind == "series":
+        return series_method(interp, recv, meth, args, kwargs)
+    if kind == "groupby":
+        return groupby_method(interp, recv, meth, args, kwargs)
     raise EngineError(f"{kind}.{meth}")
 
 
-def summarise_df_cell(*a, **k):
-    raise EngineError("DataFrame in loop")
+class GroupBy:
+    def __init__(self, src, keys, names):
+        self.src, self.keys, self.names = src, keys, names   # src: {name: Arr}, keys: Arr, names: order of value columns
+
+
+class GroupMean:
+    def __init__(self, gb):
+        self.gb = gb
+
+
+def _round_cols(cols, order, k):
+    out = {}
+    for nm in order:
+        a = cols[nm]
+        if a.dtype == "float":
+            r = a.reader()
+            out[nm] = A.new_arr(a.shape, lambda idx, r=r: sv.round_dec(r(idx), k), "float")
+        elif a.dtype == "complex":
+            r = a.reader()
+            out[nm] = A.new_arr(a.shape, lambda idx, r=r: sv.round_dec(r(idx), k), "complex")
+        else:
+            out[nm] = a
+    return out
+
+
+def df_method(interp, df, meth, args, kwargs):
+    from .lib import SeriesVal
+    c = df_content(df)
+    if meth == "to_csv":
+        path = args[0] if args else kwargs.get("path_or_buf")
+        snap = {k: A.copy(v) for k, v in c["cols"].items()}
+        cur().trace.append(("to_csv", path, snap, list(c["order"]), kwargs.get("float_format"), c["n"], cur().where))
+        return None
+    if meth == "join":
+        other = args[0]
+        oc = df_content(other)
+        A.require_dim_eq(c["n"], oc["n"], "join-equal-length")
+        order = list(c["order"])
+        cols = dict(c["cols"])
+        for k in oc["order"]:
+            if k in cols:
+                raise PyValueError(f"columns overlap: {k}")
+            cols[k] = oc["cols"][k]
+            order.append(k)
+        return new_df(cols, order, c["n"])
+    if meth == "round":
+        k = int(norm(args[0])) if args else 0
+        return new_df(_round_cols(c["cols"], c["order"], k), c["order"], c["n"])
+    if meth == "copy":
+        return new_df(c["cols"], c["order"], c["n"])
+    if meth == "astype":
+        dt = A.norm_dtype(args[0].name if hasattr(args[0], "name") else args[0])
+        return new_df({k: A.astype(v, dt) for k, v in c["cols"].items()}, c["order"], c["n"])
+    if meth == "groupby":
+        keys = args[0]
+        if isinstance(keys, SeriesVal):
+            kname, keys = keys.name, keys.arr
+        elif isinstance(keys, str):
+            kname, keys = keys, c["cols"][keys]
+        else:
+            raise EngineError("groupby key")
+        A.require_dim_eq(keys.shape[0], c["n"], "groupby-length")
+        names = [k for k in c["order"]]
+        return GroupBy({k: c["cols"][k] for k in names}, (kname, keys), names)
+    if meth == "mean":
+        from .interp import new_dict
+        return new_dict({k: A.reduce_mean(c["cols"][k]) for k in c["order"]})
+    raise EngineError(f"DataFrame.{meth}")
+
+
+def series_method(interp, s, meth, args, kwargs):
+    from .interp import Ref
+    from .lib import SeriesVal
+    if meth == "map":
+        d = args[0]
+        if not (isinstance(d, Ref) and d.kind == "dict"):
+            raise EngineError("Series.map with a non-dict")
+        items = list(d.content.items())
+        if not items:
+            raise EngineError("Series.map with an empty dict")
+        r = s.arr.reader()
+        keys = [k for k, _ in items]
+        n = s.arr.shape[0]
+        # every element must be a key (otherwise pandas yields NaN): side obligation at a symbolic position
+        t = sv.fresh_int("mk")
+        cur().require(sv.implies(sv.and_(sv.cmp(">=", t, 0), sv.cmp("<", t, n)), sv.or_(*[sv.cmp("==", r((t,)), k) for k in keys])), "map-key")
+
+        def fn(idx):
+            x = r(idx)
+            out = norm(items[-1][1])
+            for k, v in reversed(items[:-1]):
+                out = ite(sv.cmp("==", x, k), norm(v), out)
+            return out
+        dts = [A.scalar_dtype(norm(v)) for _, v in items]
+        return _series(A.new_arr((n,), fn, A.promote(*dts)), s.name)
+    if meth == "groupby":
+        keys = args[0]
+        if isinstance(keys, SeriesVal):
+            kname, keys = keys.name, keys.arr
+        else:
+            raise EngineError("groupby key")
+        A.require_dim_eq(keys.shape[0], s.arr.shape[0], "groupby-length")
+        return GroupBy({s.name: s.arr}, (kname, keys), [s.name])
+    if meth in ("mean", "sum", "min", "max", "copy", "astype", "any", "all"):
+        r = interp.lib.arr_method(interp, s.arr, meth, args, kwargs)
+        return _series(r, s.name) if isinstance(r, A.Arr) else r
+    if meth == "round":
+        k = int(norm(args[0])) if args else 0
+        return _series(_round_cols({"x": s.arr}, ["x"], k)["x"], s.name)
+    if meth == "to_numpy":
+        return series_attr(interp, s, "values")
+    raise EngineError(f"Series.{meth}")
+
+
+def groupby_method(interp, recv, meth, args, kwargs):
+    if isinstance(recv, GroupBy) and meth == "mean":
+        return GroupMean(recv)
+    if isinstance(recv, GroupMean) and meth == "reset_index":
+        return group_mean_frame(recv.gb)
+    raise EngineError(f"groupby.{meth}")
+
+
+_gcount = [0]
+
+
+def group_mean_frame(gb):
+    """ASSUMED contract of groupby(keys).mean().reset_index(): see module docstring"""
+    _gcount[0] += 1
+    tag = sv.fresh_name("grp")
+    kname, keys = gb.keys
+    kr = keys.reader()
+    n = keys.shape[0]
+    G = sv.integer(f"G_{tag}")
+    Kf = z3.Function(f"K_{tag}", z3.IntSort(), z3.RealSort())
+    st = cur()
+    st.assume(sv.cmp(">=", G, 0))
+    st.assume(sv.implies(sv.cmp(">=", n, 1), sv.cmp(">=", G, 1)))
+    st.assume(sv.cmp("<=", G, n)) if not is_conc(n) or True else None
+
+    def K(g):
+        return SV(Kf(sv.znum(g)))
+    cols = {kname: A.new_arr((G,), lambda idx: K(idx[0]), "float")}
+    order = [kname]
+    for nm in gb.names:
+        if nm == kname:
+            continue
+        vr = gb.src[nm].reader()
+        dt = gb.src[nm].dtype
+
+        def fn(idx, vr=vr):
+            kg = K(idx[0])
+            num = Sum(0, n, lambda t: ite(sv.cmp("==", kr((t,)), kg), lambda: sv.to_real(vr((t,))) if dt != "complex" else vr((t,)), 0))
+            den = Sum(0, n, lambda t: ite(sv.cmp("==", kr((t,)), kg), 1, 0))
+            return sv.div(num, den)
+        cols[nm] = A.new_arr((G,), fn, "float" if dt != "complex" else "complex")
+        order.append(nm)
+    df = new_df(cols, order, G)
+    cur().heap[df.sid].meta["groupby"] = {"keys": kr, "n": n, "K": K, "G": G, "key_name": kname}
+    return df
+
+
+def df_loc_getitem(interp, df, key):
+    if not (isinstance(key, tuple) and len(key) == 2):
+        raise EngineError("DataFrame.loc key")
+    row, col = key
+    c = df_content(df)
+    k = interp.dict_key(col)
+    if k not in c["cols"]:
+        raise interp_keyerror(k)
+    return A.getitem(c["cols"][k], row)
+
+
+def summarise_df_cell(interp, sid, pre_cell, post_cell, heap_h, st1, iz, lo, hi, hv_consts, hv_funcs):
+    """a DataFrame cell changed inside a symbolic loop: only allowed if the set of column cells is unchanged
+    (in-place accumulation goes to the column's own array cell, which is summarised as an array)"""
+    a, b = pre_cell.data, post_cell.data
+    if a["order"] == b["order"] and all(a["cols"][k].sid == b["cols"][k].sid for k in a["order"]):
+        return lambda k: pre_cell
+    raise EngineError("DataFrame columns replaced inside a symbolic loop")
 
 
 def df_cell_eq_goals(a, b, eq):
-    raise EngineError("DataFrame equality")
+    da, db = a.data, b.data
+    if da["order"] != db["order"]:
+        return [z3.BoolVal(False)]
+    return [z3.BoolVal(all(da["cols"][k].sid == db["cols"][k].sid for k in da["order"]))]
